@@ -123,3 +123,59 @@ def s_verbose(env):
 
 
 SCENARIOS = {"coding": s_coding, "generation": s_generation, "graph": s_graph, "repair": s_repair, "random": s_random, "verbose": s_verbose}
+
+
+def s_variation(env):
+    """the same functions called with arguments that differ in ONE component (graph of the same shape, filter with other
+    motifs, other observed length, other keyword spelling), with in-place edits of earlier results / shared arguments in
+    between: exposes caches with incomplete keys, results handed out without a copy, lazily rewritten arguments."""
+    accA, accB, msg, start = env["acc"], env["acc_b"], env["msg"], env["start"]
+    fA, fB, k = env["filter"], env["filter_b"], env["k"]
+    L = len(env["bits_list"])
+    steps = [
+        ("encA", "encode", (msg, accA, start), {}),
+        ("encB", "encode", (msg, accB, start), {}),
+        ("encA2", "encode", (msg, accA, start), {}),
+        ("decA", "decode", (env["strand"], L, accA, start), {}),
+        ("decB", "decode", (env["strand"], L, accB, start), {}),
+        ("decA-fast", "decode", (env["strand"], L, accA, start), {"is_faster": True}),
+        ("decB-fast", "decode", (env["strand"], L, accB, start), {"is_faster": True}),
+        ("repA", "repair_dna", (env["strand"], accA, start, k), {"has_indel": True}),
+        ("repB", "repair_dna", (env["strand"], accB, start, k), {"has_indel": True}),
+        ("capA", "approximate_capacity", (accA,), {"repeats": 1}),
+        ("capB", "approximate_capacity", (accB,), {"repeats": 1}),
+        ("findA", "find_vertices", (k, fA), {}),
+        ("findB", "find_vertices", (k, fB), {}),
+        ("findA2", "find_vertices", (k, fA), {}),
+        ("validA", "LocalBioFilter.valid", (fA, env["probe"]), {}),
+        ("validB", "LocalBioFilter.valid", (fB, env["probe"]), {}),
+        ("validA-all", "LocalBioFilter.valid", (fA, env["probe"]), {"only_last": False}),
+        ("gen-k", "connect_coding_graph", (k, env["mask"], 1), {}),
+        ("gen-k3", "connect_coding_graph", (3, env["mask3"], 1), {}),
+        ("gen-k-again", "connect_coding_graph", (k, env["mask"], 1), {}),
+        ("gen-k1", "connect_coding_graph", (1, env["mask1"], 1), {}),
+        ("vg-k3", "connect_valid_graph", (3, env["mask3"]), {}),
+        ("vg-k", "connect_valid_graph", (k, env["mask"]), {}),
+        ("shuf-a", "create_random_shuffles", (k, 11), {}),
+        ("KEEP-LAST", None, (), {}),
+        ("shuf-b", "create_random_shuffles", (k, 11), {}),
+        ("CHECK-KEPT", None, (), {}),
+        ("shuf-k3", "create_random_shuffles", (3, 11), {}),
+        ("comp-pos", "get_complete_accessor", (k,), {}),
+        ("TRIM-LAST-RESULT", None, (), {}),
+        ("comp-kw", "get_complete_accessor", (), {"observed_length": k}),
+        ("TRIM-LAST-RESULT", None, (), {}),
+        ("comp-kw2", "get_complete_accessor", (), {"observed_length": k, "verbose": False}),
+        ("comp-pos2", "get_complete_accessor", (k,), {}),
+        ("EDIT-ACC-A", None, (), {}),
+        ("encA-edited", "encode", (msg, accA, start), {}),
+        ("decA-edited", "decode", (env["strand"], L, accA, start), {}),
+        ("lat-k", "obtain_latters", (env["root"], k), {}),
+        ("lat-k3", "obtain_latters", (env["root"], 3), {}),
+        ("for-k3", "obtain_formers", (env["root"], 3), {}),
+        ("for-k", "obtain_formers", (env["root"], k), {}),
+    ]
+    return steps
+
+
+SCENARIOS["variation"] = s_variation
